@@ -677,6 +677,24 @@ Definition check_case (bs : bytes) (order : list (Z * bool)) (libdesc : option d
     if list_eqb variant_eqb (resolve_variants (d_name d) (d_ctl d) names3 vsrc) (d_variants d) then 0 else 6
   end.
 
+(* definitions with tens of thousands of control slots: the description stages (quadratic list updates
+   in the mirror) are left out, everything about the bytes themselves is kept *)
+Definition check_case_light (bs : bytes) (order : list (Z * bool)) (libdesc : option desc)
+           (names3 : list (bytes * Z * Z)) (vsrc : list (bytes * list (bytes * list Z)))
+           (decl : list (bytes * Z * Z * list Z)) (libname : option bytes)
+           (wantname : bytes) (truth : list ugen) (truthk : list Z) : Z :=
+  match parse_def bs with
+  | Err _ => 1
+  | Ok d =>
+    if negb (wf_def d) then 2 else
+    if negb (opt_eqb bytes_eqb (write_def d) (Some bs)) then 3 else
+    if negb (Nat.eqb (List.length order) (List.length (d_units d)) && wfirst_ok order) then 4 else
+    if negb (opt_eqb bytes_eqb (def_name_of bs) libname) then 8 else
+    if negb (list_eqb ugen_eqb (d_units d) truth && list_eqb Z.eqb (d_consts d) truthk) then 9 else
+    if negb (bytes_eqb (d_name d) wantname) then 10 else
+    if negb (list_eqb pname_eqb (d_names d) (List.map (fun p => let '(n, i, _, _) := p in (n, i)) decl)) then 7 else 0
+  end.
+
 (* the bytes (or the exception = None) the writer must produce for the graph whose neutral build
    ('n', no variants) gave [base], under its real name and variants *)
 Definition expect_bytes (base : bytes) (name : bytes) (names3 : list (bytes * Z * Z))
